@@ -72,6 +72,8 @@ class Inst:
         self.mx_seen = False
         self.ended = None       # None | 'D' | 'R' | 'k' | 'disc' | 'reg' | 'replaced'
         self.expiry_step = None
+        self.spans_reload = False
+        self.opaque = False     # live across a reload that changed the service table: see World.reconfig()
         self.illshaped = []     # texts of ill-shaped passwords (never to be forwarded)
         self.chal_texts = []
 
@@ -125,6 +127,9 @@ class World:
         self.transitions = set()
         self.verdicts = {"D": 0, "R": 0, "k": 0}
         self.in_use_checks = 0
+        # protocol of every service name as last configured with a known protocol (a retired or mis-typed entry
+        # keeps answering with the protocol it had: modules/iauth_xquery.c keeps the record while it is referenced)
+        self.svc_type = dict(self.services())
         self.counts = {"lines": 0, "queries": 0, "accepts": 0, "kills": 0, "challenges": 0,
                        "class_rule_hits": 0, "class_evals": 0, "client_lines": 0, "audits": 0}
 
@@ -144,6 +149,32 @@ class World:
             return {}
         return {n: t for n, t in self.cfg["services"].items() if t in
                 ("login", "login-ipr", "dronecheck", "combined")}
+
+    def reconfig(self, services, rules):
+        """A successful reload put new service and rule tables in force.  The statements determine the
+        treatment of a client "arriving afterwards" (C17) and of clients under one fixed table; what a reload
+        of the *service* table means for a client that is half-way through registration (is a new service
+        queried for it, can a pending challenge still be answered, does an OK from a service that no longer
+        exists count for a rule) is left open.  Such instances become opaque: the monitors that depend on the
+        service table (C02 queries/+!, C03, C05, C06, C11) skip them; everything that does not (C01, C04
+        silence of stray replies, C09, C10, memory safety) still applies to them, and every instance announced
+        after the reload is checked in full against the new tables.  A reload that changes only the rule table
+        leaves live instances fully checked: C11 speaks of the rules "at acceptance time"."""
+        old = self.services()
+        self.cfg["services"] = dict(services)
+        self.cfg["rules"] = rules
+        new = self.services()
+        self.svc_type.update(new)
+        changed = set(n for n in set(old) | set(new) if old.get(n) != new.get(n))
+        for i in self.live.values():
+            i.spans_reload = True
+            if changed:
+                i.opaque = True
+        self.probe("reload_tables")
+        if changed:
+            self.probe("reload_tables_changed_services")
+            if self.live:
+                self.probe("reload_tables_with_live_clients")
 
     def required(self):
         if self.policy is None:
@@ -237,7 +268,7 @@ class World:
             e["noise"] = True
         # C06(b): queries that must appear in this step
         i = e["ctx"]
-        if i is not None and i.ended is None and self.has_xquery():
+        if i is not None and i.ended is None and self.has_xquery() and not i.opaque:
             for s, t in sorted(self.services().items()):
                 if not self.prereq(i, t):
                     continue
@@ -272,8 +303,8 @@ class World:
             i.user_known = True
             if i.ident_blank:
                 i.ident_known = True
-        elif ev == "P" and not self.has_xquery():
-            pass        # no loaded module gives a password any meaning
+        elif ev == "P" and (not self.has_xquery() or i.opaque):
+            pass        # no loaded module gives a password any meaning / meaning undetermined (see reconfig)
         elif ev == "P":
             if i.challenge and i.creds is not None:
                 # response to a service's MORE challenge
@@ -330,7 +361,7 @@ class World:
             e["silent"] = True
             self.probe("xr_not_awaited" if svc in self.cfg["services"] else "xr_unknown_svc")
             return
-        typ = self.services().get(svc)
+        typ = self.svc_type.get(svc)
         if op["kind"] == "x":
             if text is None:
                 e["silent"] = True      # too few parameters
@@ -501,7 +532,7 @@ class World:
             out = [s for s, a in i.awaiting.items() if a]
             # "a final answer to every query sent about it OR an expired request timeout"
             q_ok = (not out) or i.expired
-            if self.data_ok(i) and q_ok and not self.blocked_by_bang(i):
+            if self.data_ok(i) and q_ok and not self.blocked_by_bang(i) and not i.opaque:
                 self.v("C03", "stuck", "client %d has all data (%s), no unanswered query (outstanding=%s expired=%s), "
                        "no unmet +! (modes=%s stamp=%s) but no verdict after step %d (%s)" %
                        (cid, "H" if i.hurry else "complete", out, i.expired, "".join(sorted(i.modes)),
@@ -576,6 +607,8 @@ class World:
         for (i, svc, text, ln) in got_q:
             verb = text.split(" ", 1)[0]
             typ = svcs.get(svc)
+            if i.opaque:
+                continue        # undetermined for an instance that was live across a change of the service table
             if typ is None:
                 self.v("C06", "unknown-service", "query to %r which is not a configured service: %r" % (svc, ln))
                 continue
@@ -623,7 +656,7 @@ class World:
                     self.v("C06", "skipped", "client %d: prerequisites of %s (%s) are known but no %s query was sent in this step" %
                            (ctx.cid, svc, svcs.get(svc), verb))
             for svc, text in sorted(e["more"].items()):
-                if (svc, "MORE") not in seen:
+                if (svc, "MORE") not in seen and not ctx.opaque:
                     self.v("C06", "more-skipped", "client %d answered %s's challenge but no MORE query was sent" % (ctx.cid, svc))
 
     def _obs_accept(self, e, i, cmd, g, ln):
@@ -632,15 +665,17 @@ class World:
         if not self.data_ok(i):
             self.v("C02", "data-missing", "client %d accepted before all requested data arrived: %r" % (cid, ln))
         out = [s for s, a in i.awaiting.items() if a]
-        if out and not i.expired:
+        if out and not i.expired and not i.opaque:
             self.v("C02", "query-outstanding", "client %d accepted while %s still owe(s) an answer and no timeout expired: %r" % (cid, out, ln))
-        if self.blocked_by_bang(i):
+        if self.blocked_by_bang(i) and not i.opaque:
             self.v("C02", "bang-no-stamp", "client %d asked for +! and holds no account stamp but was accepted: %r" % (cid, ln))
         if i.refused:
             self.v(("C02", "C01"), "accepted-after-refusal", "client %d was refused by a service and then accepted: %r" % (cid, ln))
         # ---- C05
         acct = g.get("account") if cmd == "R" else None
-        if cmd == "R":
+        if i.opaque:
+            self.probe("opaque_accept")
+        elif cmd == "R":
             if not i.vouched:
                 self.v(("C05", "C04"), "stamp-not-vouched", "client %d reported with account %r that no awaited login service vouched for it" % (cid, acct))
             elif acct not in i.vouched:
@@ -660,6 +695,8 @@ class World:
                 self.counts["class_rule_hits"] += 1
         else:
             cls, uexp = "", None
+        if i.opaque:
+            cls, uexp = g.get("class") or "", ""
         if (g.get("class") or "") != cls:
             self.v(("C11", "C05"), "class", "client %d got class %r, first matching rule gives %r: %r" % (cid, g.get("class") or "", cls, ln))
         ugot = getattr(i, "u_line", None)
